@@ -878,7 +878,7 @@ fn tree_case_random(case_seed: u64, rep: &mut Report) {
 /// identifiers/function names of the pools must lex as plain identifiers (otherwise the generator,
 /// not the parser, would be at fault)
 fn pools_are_identifiers() -> Result<(), String> {
-    for n in IDENT_POOL.iter().chain(FUNC_POOL.iter()).chain(["tbl"].iter()) {
+    for n in IDENT_POOL.iter().chain(FUNC_POOL.iter()).chain(["tbl"].iter()).chain(COLLECTIONS.iter()) {
         let toks = np::tokenize(n);
         if !(toks.len() == 2 && matches!(&toks[0].kind, np::TokenKind::Ident(x) if x == n)) {
             return Err(format!("pool name {:?} is not a plain identifier for the lexer", n));
@@ -1908,7 +1908,7 @@ fn totality_part(args: &Args, total: &mut Report) {
 
 use graph_engine::{Direction, GraphEngine, PropertyValue};
 use relational_engine::{Column, ColumnType, Condition, RelationalEngine, Row, Schema, Value};
-use vector_engine::{DistanceMetric, VectorEngine};
+use vector_engine::{DistanceMetric, FilterCondition, FilterValue, VectorEngine};
 
 #[derive(Clone, Debug, PartialEq)]
 enum Lit {
@@ -2017,6 +2017,31 @@ impl Cond {
             Cond::Or(a, b) => a.direct().or(b.direct()),
         }
     }
+    /// the same condition as a vector-engine metadata filter (SIMILAR .. WHERE)
+    fn filter(&self) -> FilterCondition {
+        match self {
+            Cond::Cmp(c, op, l) => {
+                let v = match l {
+                    Lit::Int(i) => FilterValue::Int(*i),
+                    Lit::Float(f) => FilterValue::Float(*f),
+                    Lit::Str(x) => FilterValue::String(x.clone()),
+                    Lit::Bool(b) => FilterValue::Bool(*b),
+                    Lit::Null => FilterValue::Null,
+                };
+                let c = c.clone();
+                match op {
+                    B::Eq => FilterCondition::Eq(c, v),
+                    B::Ne => FilterCondition::Ne(c, v),
+                    B::Lt => FilterCondition::Lt(c, v),
+                    B::Le => FilterCondition::Le(c, v),
+                    B::Gt => FilterCondition::Gt(c, v),
+                    _ => FilterCondition::Ge(c, v),
+                }
+            }
+            Cond::And(a, b) => a.filter().and(b.filter()),
+            Cond::Or(a, b) => a.filter().or(b.filter()),
+        }
+    }
     fn has_neg(&self) -> bool {
         match self {
             Cond::Cmp(_, _, l) => l.is_neg(),
@@ -2059,6 +2084,13 @@ enum Op {
     EntityConnect { from: String, to: String, ty: String },
     NeighborsBySimilar { key: String, vec: Vec<Lit>, limit: Option<u64> },
     SimilarConnected { key: String, to: String, limit: Option<u64> },
+    // collection-qualified vector statements (`.. INTO <collection>`) and filtered similarity
+    EmbedStoreIn { coll: String, key: String, vec: Vec<Lit> },
+    EmbedGetIn { coll: String, key: String },
+    EmbedDeleteIn { coll: String, key: String },
+    EmbedBatch { coll: Option<String>, items: Vec<(String, Vec<Lit>)> },
+    /// SIMILAR 'key' | [vector] LIMIT k [COSINE] [INTO coll] [WHERE filter]
+    SimilarIn { coll: Option<String>, key: Option<String>, vec: Vec<Lit>, k: u64, cosine_kw: bool, filter: Option<Cond> },
 }
 
 fn window_text(limit: &Option<u64>, offset: &Option<u64>, st: &Style) -> String {
@@ -2136,6 +2168,17 @@ impl Op {
             Op::EntityConnect { .. } => "entity-connect",
             Op::NeighborsBySimilar { .. } => "neighbors-by-similar",
             Op::SimilarConnected { .. } => "similar-connected",
+            Op::EmbedStoreIn { .. } => "embed-store-into",
+            Op::EmbedGetIn { .. } => "embed-get-into",
+            Op::EmbedDeleteIn { .. } => "embed-delete-into",
+            Op::EmbedBatch { coll: None, .. } => "embed-batch",
+            Op::EmbedBatch { .. } => "embed-batch-into",
+            Op::SimilarIn { coll: Some(_), key: Some(_), filter: None, .. } => "similar-key-into",
+            Op::SimilarIn { coll: Some(_), key: Some(_), .. } => "similar-key-into-where",
+            Op::SimilarIn { coll: Some(_), filter: None, .. } => "similar-vector-into",
+            Op::SimilarIn { coll: Some(_), .. } => "similar-vector-into-where",
+            Op::SimilarIn { key: Some(_), .. } => "similar-key-where",
+            Op::SimilarIn { .. } => "similar-vector-where",
         }
     }
 
@@ -2153,6 +2196,10 @@ impl Op {
             Op::FindNode { cond: Some((_, _, v)), .. } if *v < 0 => Some("find-where"),
             Op::EntityCreate { emb: Some(vec), .. } if vec.iter().any(|l| l.is_neg()) => Some("entity-embedding"),
             Op::NeighborsBySimilar { vec, .. } if vec.iter().any(|l| l.is_neg()) => Some("neighbors-similar-vector"),
+            Op::EmbedStoreIn { vec, .. } if vec.iter().any(|l| l.is_neg()) => Some("embed-vector"),
+            Op::EmbedBatch { items, .. } if items.iter().any(|(_, v)| v.iter().any(|l| l.is_neg())) => Some("embed-vector"),
+            Op::SimilarIn { key: None, vec, .. } if vec.iter().any(|l| l.is_neg()) => Some("similar-vector"),
+            Op::SimilarIn { filter: Some(f), .. } if f.has_neg() => Some("similar-where"),
             _ => None,
         }
     }
@@ -2246,6 +2293,23 @@ impl Op {
             Op::EntityConnect { from, to, ty } => format!("{} {} {} -> {} : {}", k("ENTITY"), k("CONNECT"), quote_str(from, st.dq_strings), quote_str(to, st.dq_strings), ty),
             Op::NeighborsBySimilar { key, vec, limit } => format!("{} {} {} {} {} {}{}", k("NEIGHBORS"), quote_str(key, st.dq_strings), k("BOTH"), k("BY"), k("SIMILAR"), vec_text(vec, st), window_text(limit, &None, st)),
             Op::SimilarConnected { key, to, limit } => format!("{} {} {} {} {}{}", k("SIMILAR"), quote_str(key, st.dq_strings), k("CONNECTED"), k("TO"), quote_str(to, st.dq_strings), window_text(limit, &None, st)),
+            Op::EmbedStoreIn { coll, key, vec } => format!("{} {} {} {} {} {}", k("EMBED"), k("STORE"), quote_str(key, st.dq_strings), vec_text(vec, st), k("INTO"), coll),
+            Op::EmbedGetIn { coll, key } => format!("{} {} {} {} {}", k("EMBED"), k("GET"), quote_str(key, st.dq_strings), k("INTO"), coll),
+            Op::EmbedDeleteIn { coll, key } => format!("{} {} {} {} {}", k("EMBED"), k("DELETE"), quote_str(key, st.dq_strings), k("INTO"), coll),
+            Op::EmbedBatch { coll, items } => {
+                let its: Vec<String> = items.iter().map(|(key, v)| format!("({}, {})", quote_str(key, st.dq_strings), vec_text(v, st))).collect();
+                format!("{} {} [{}]{}", k("EMBED"), k("BATCH"), its.join(", "), coll.as_ref().map(|c| format!(" {} {}", k("INTO"), c)).unwrap_or_default())
+            }
+            Op::SimilarIn { coll, key, vec, k: n, cosine_kw, filter } => format!(
+                "{} {} {} {}{}{}{}",
+                k("SIMILAR"),
+                key.as_ref().map(|x| quote_str(x, st.dq_strings)).unwrap_or_else(|| vec_text(vec, st)),
+                k("LIMIT"),
+                n,
+                if *cosine_kw { format!(" {}", k("COSINE")) } else { String::new() },
+                coll.as_ref().map(|c| format!(" {} {}", k("INTO"), c)).unwrap_or_default(),
+                filter.as_ref().map(|f| format!(" {} {}", k("WHERE"), f.text(st))).unwrap_or_default()
+            ),
         }
     }
 }
@@ -2351,6 +2415,42 @@ fn direct(op: &Op, router: &QueryRouter) -> Result<Direct, String> {
             let full = router.find_neighbors_by_similarity(key, &q, 100_000).map_err(es)?;
             let top: Vec<(String, f32)> = top.into_iter().map(|i| (i.id, i.score.unwrap_or(0.0))).collect();
             let full: Vec<(String, f32)> = full.into_iter().map(|i| (i.id, i.score.unwrap_or(0.0))).collect();
+            Ok(Direct::Similar(top, full))
+        }
+        Op::EmbedStoreIn { coll, key, vec } => v.store_in_collection(coll, key, vec.iter().map(lit_f32).collect()).map(|_| Direct::Unit).map_err(es),
+        Op::EmbedGetIn { coll, key } => v.get_from_collection(coll, key).map(Direct::Vector).map_err(es),
+        Op::EmbedDeleteIn { coll, key } => v.delete_from_collection(coll, key).map(|_| Direct::Count(1)).map_err(es),
+        Op::EmbedBatch { coll, items } => {
+            let mut n = 0;
+            for (key, vec) in items {
+                let x: Vec<f32> = vec.iter().map(lit_f32).collect();
+                match coll {
+                    Some(c) => v.store_in_collection(c, key, x).map_err(es)?,
+                    None => v.store_embedding(key, x).map_err(es)?,
+                }
+                n += 1;
+            }
+            Ok(Direct::Count(n))
+        }
+        Op::SimilarIn { coll, key, vec, k, filter, .. } => {
+            // the query names a stored key of the collection the statement targets
+            let q: Vec<f32> = match (key, coll) {
+                (Some(key), Some(c)) => v.get_from_collection(c, key).map_err(es)?,
+                (Some(key), None) => v.get_embedding(key).map_err(es)?,
+                (None, _) => vec.iter().map(lit_f32).collect(),
+            };
+            let f = filter.as_ref().map(|c| c.filter());
+            let run = |k: usize| -> Result<Vec<(String, f32)>, String> {
+                let r = match (coll, &f) {
+                    (Some(c), Some(f)) => v.search_filtered_in_collection(c, &q, k, f, None),
+                    (Some(c), None) => v.search_in_collection(c, &q, k),
+                    (None, Some(f)) => v.search_similar_filtered(&q, k, f, None),
+                    (None, None) => v.search_similar_with_metric(&q, k, DistanceMetric::Cosine),
+                };
+                r.map(|x| x.into_iter().map(|s| (s.key, s.score)).collect()).map_err(es)
+            };
+            let top = run(*k as usize)?;
+            let full = run(100_000)?;
             Ok(Direct::Similar(top, full))
         }
         Op::SimilarConnected { key, to, limit } => {
@@ -2740,6 +2840,8 @@ struct Model {
     dim: usize,
     idx_ctr: usize,
     ents: Vec<String>,
+    /// keys stored per named collection
+    ckeys: BTreeMap<String, Vec<String>>,
 }
 
 const TABLE_NAMES: &[&str] = &["users", "orders", "t1", "items", "log_2"];
@@ -2834,6 +2936,73 @@ fn gen_props(r: &mut Rng) -> Vec<(String, Lit)> {
     v
 }
 
+const COLLECTIONS: &[&str] = &["coll_a", "docs_b"];
+const FIXTURE_TAGS: &[&str] = &["red", "blue", "it's"];
+
+fn vkey(r: &mut Rng) -> String {
+    format!("{}{}", r.pick(&["doc", "k:", "it's ", "ü"]), r.below(12))
+}
+
+/// a key of collection `coll` (mostly one that is stored there, sometimes one only the default
+/// collection has, sometimes a missing one)
+fn ckey(r: &mut Rng, m: &Model, coll: &str) -> String {
+    let own = m.ckeys.get(coll).filter(|v| !v.is_empty());
+    match (own, r.below(8)) {
+        (Some(v), 0..=5) => r.pick(v).clone(),
+        (_, 6) if !m.keys.is_empty() => r.pick(&m.keys).clone(),
+        (Some(v), _) => r.pick(v).clone(),
+        _ => {
+            if !m.keys.is_empty() && r.bool() {
+                r.pick(&m.keys).clone()
+            } else {
+                "missing".to_string()
+            }
+        }
+    }
+}
+
+/// metadata filter over the fixture's fields `tag` (string) and `rank` (integer)
+fn gen_filter(r: &mut Rng, depth: usize) -> Cond {
+    if depth == 0 || r.chance(3, 5) {
+        if r.bool() {
+            Cond::Cmp("tag".into(), *r.pick(&[B::Eq, B::Ne]), Lit::Str(r.pick(FIXTURE_TAGS).to_string()))
+        } else {
+            Cond::Cmp("rank".into(), *r.pick(&[B::Eq, B::Ne, B::Lt, B::Le, B::Gt, B::Ge]), Lit::Int(r.range(0, 4)))
+        }
+    } else if r.bool() {
+        Cond::And(Box::new(gen_filter(r, depth - 1)), Box::new(gen_filter(r, depth - 1)))
+    } else {
+        Cond::Or(Box::new(gen_filter(r, depth - 1)), Box::new(gen_filter(r, depth - 1)))
+    }
+}
+
+/// the same metadata-carrying embeddings on both twins (statement text cannot attach metadata): keys
+/// fx0..fx3 in the default collection and in every named collection, each with its own vector
+fn seed_vector_fixture(r: &mut Rng, m: &mut Model, a: &QueryRouter, b: &QueryRouter) -> Result<(), String> {
+    use tensor_store::{ScalarValue, TensorValue};
+    let colls: Vec<Option<&str>> = std::iter::once(None).chain(COLLECTIONS.iter().map(|c| Some(*c))).collect();
+    for i in 0..4 {
+        let key = format!("fx{}", i);
+        for c in &colls {
+            let vec: Vec<f32> = (0..m.dim).map(|_| (r.range(-32, 32) as f32) / 8.0).collect();
+            let mut meta: HashMap<String, TensorValue> = HashMap::new();
+            meta.insert("tag".into(), TensorValue::Scalar(ScalarValue::String(r.pick(FIXTURE_TAGS).to_string())));
+            meta.insert("rank".into(), TensorValue::Scalar(ScalarValue::Int(r.range(0, 4))));
+            for rt in [a, b] {
+                match c {
+                    Some(c) => rt.vector().store_in_collection_with_metadata(c, &key, vec.clone(), meta.clone()).map_err(es)?,
+                    None => rt.vector().store_embedding_with_metadata(&key, vec.clone(), meta.clone()).map_err(es)?,
+                }
+            }
+            match c {
+                Some(c) => m.ckeys.entry(c.to_string()).or_default().push(key.clone()),
+                None => m.keys.push(key.clone()),
+            }
+        }
+    }
+    Ok(())
+}
+
 fn gen_op(r: &mut Rng, m: &mut Model) -> Op {
     let live: Vec<usize> = m.tables.iter().enumerate().filter(|(_, t)| t.alive).map(|(i, _)| i).collect();
     let pick_id = |r: &mut Rng, ids: &[u64]| -> u64 {
@@ -2861,7 +3030,7 @@ fn gen_op(r: &mut Rng, m: &mut Model) -> Op {
         }
     };
     loop {
-        match r.below(136) {
+        match r.below(166) {
             0..=5 => {
                 let name = r.pick(TABLE_NAMES).to_string();
                 let n = 1 + r.below(4);
@@ -2992,6 +3161,49 @@ fn gen_op(r: &mut Rng, m: &mut Model) -> Op {
             }
             128..=130 => return Op::EntityConnect { from: ent_key(r, m), to: ent_key(r, m), ty: r.pick(ETYPES).to_string() },
             131..=133 => return Op::NeighborsBySimilar { key: ent_key(r, m), vec: gen_vec(r, m.dim), limit: window(r) },
+            136..=143 => {
+                // keys overlap with the default collection on purpose (same names, other vectors)
+                let coll = r.pick(COLLECTIONS).to_string();
+                let key = if !m.keys.is_empty() && r.chance(2, 3) { r.pick(&m.keys).clone() } else { vkey(r) };
+                let dim = if r.chance(1, 15) { m.dim + 1 } else { m.dim };
+                return Op::EmbedStoreIn { coll, key, vec: gen_vec(r, dim) };
+            }
+            144 | 145 => {
+                let coll = r.pick(COLLECTIONS).to_string();
+                let key = ckey(r, m, &coll);
+                return Op::EmbedGetIn { coll, key };
+            }
+            146 => {
+                let coll = r.pick(COLLECTIONS).to_string();
+                let key = ckey(r, m, &coll);
+                return Op::EmbedDeleteIn { coll, key };
+            }
+            147..=149 => {
+                let n = 1 + r.below(3);
+                let items = (0..n).map(|_| (if !m.keys.is_empty() && r.bool() { r.pick(&m.keys).clone() } else { vkey(r) }, gen_vec(r, m.dim))).collect();
+                return Op::EmbedBatch { coll: if r.chance(2, 3) { Some(r.pick(COLLECTIONS).to_string()) } else { None }, items };
+            }
+            150..=165 => {
+                let coll = if r.chance(4, 5) { Some(r.pick(COLLECTIONS).to_string()) } else { None };
+                let by_key = r.chance(2, 3);
+                let key = if by_key {
+                    Some(match &coll {
+                        Some(c) => ckey(r, m, c),
+                        None => {
+                            if m.keys.is_empty() {
+                                "missing".to_string()
+                            } else {
+                                r.pick(&m.keys).clone()
+                            }
+                        }
+                    })
+                } else {
+                    None
+                };
+                // without a collection the unfiltered form is the plain SIMILAR generated elsewhere
+                let filter = if coll.is_none() || r.chance(2, 5) { Some(gen_filter(r, 1)) } else { None };
+                return Op::SimilarIn { coll, key, vec: if by_key { vec![] } else { gen_vec(r, m.dim) }, k: if r.chance(1, 6) { *r.pick(&[0u64, 50, 1000]) } else { 1 + r.below(5) as u64 }, cosine_kw: r.chance(1, 3), filter };
+            }
             134 | 135 => return Op::SimilarConnected { key: ent_key(r, m), to: ent_key(r, m), limit: window(r) },
             98 | 99 => return Op::SimilarVec { vec: gen_vec(r, m.dim), k: if r.chance(1, 5) { *r.pick(&[0u64, 50, 1000]) } else { 1 + r.below(5) as u64 }, metric: if r.bool() { Some(r.below(3) as u8) } else { None } },
             _ => continue,
@@ -3023,6 +3235,34 @@ fn model_update(m: &mut Model, op: &Op, d: &Direct) {
             }
         }
         (Op::EmbedDelete(key), _) => m.keys.retain(|k| k != key),
+        (Op::EmbedStoreIn { coll, key, .. }, _) => {
+            let e = m.ckeys.entry(coll.clone()).or_default();
+            if !e.contains(key) {
+                e.push(key.clone());
+            }
+        }
+        (Op::EmbedDeleteIn { coll, key }, _) => {
+            if let Some(e) = m.ckeys.get_mut(coll) {
+                e.retain(|k| k != key);
+            }
+        }
+        (Op::EmbedBatch { coll, items }, _) => {
+            for (key, _) in items {
+                match coll {
+                    Some(c) => {
+                        let e = m.ckeys.entry(c.clone()).or_default();
+                        if !e.contains(key) {
+                            e.push(key.clone());
+                        }
+                    }
+                    None => {
+                        if !m.keys.contains(key) {
+                            m.keys.push(key.clone());
+                        }
+                    }
+                }
+            }
+        }
         (Op::EntityCreate { key, .. }, _) => {
             if !m.ents.contains(key) {
                 m.ents.push(key.clone());
@@ -3079,6 +3319,21 @@ fn final_states_agree(a: &QueryRouter, b: &QueryRouter, tables: &[String]) -> Re
     if embs(a) != embs(b) {
         return Err(("vector".into(), format!("embeddings {:?} vs {:?}", embs(a), embs(b))));
     }
+    let cembs = |r: &QueryRouter| {
+        let mut out = Vec::new();
+        for c in COLLECTIONS {
+            let mut ks = r.vector().list_collection_keys(c);
+            ks.sort();
+            for k in ks {
+                let v = r.vector().get_from_collection(c, &k).ok().map(|v| v.iter().map(|x| x.to_bits()).collect::<Vec<u32>>());
+                out.push((c.to_string(), k, v));
+            }
+        }
+        out
+    };
+    if cembs(a) != cembs(b) {
+        return Err(("vector".into(), format!("collection embeddings {:?} vs {:?}", cembs(a), cembs(b))));
+    }
     Ok(())
 }
 
@@ -3087,6 +3342,15 @@ fn equiv_case(case_seed: u64, rep: &mut Report) {
     let a = QueryRouter::new();
     let b = QueryRouter::new();
     let mut m = Model { dim: *r.pick(&[2usize, 3, 4, 8]), ..Default::default() };
+    if r.chance(3, 5) {
+        match guard(|| seed_vector_fixture(&mut r, &mut m, &a, &b)) {
+            Ok(Ok(())) => rep.count("programs_with_vector_fixture", 1),
+            _ => {
+                rep.inconclusive("vector fixture could not be stored by direct calls");
+                return;
+            }
+        }
+    }
     let steps = 20 + r.below(30);
     let replay = json!({"part": "equiv", "case_seed": case_seed});
     let mut trace: Vec<String> = Vec::new();
@@ -3140,6 +3404,17 @@ fn equiv_case(case_seed: u64, rep: &mut Report) {
             (Ok(qa), Ok(db)) => {
                 rep.count("both_ok", 1);
                 rep.count(&format!("both_ok[{}]", fam), 1);
+                if let (Op::SimilarIn { coll: Some(c), key: Some(k), .. }, QueryResult::Similar(x)) = (&op, qa) {
+                    if !x.is_empty() {
+                        rep.count("similar_key_into_nonempty_agreed", 1);
+                        // the discriminating situation: the key also exists in the default collection with another vector
+                        let other = b.vector().get_embedding(k).ok();
+                        let own = b.vector().get_from_collection(c, k).ok();
+                        if other.is_some() && other != own {
+                            rep.count("similar_key_into_with_shadowing_default_key_agreed", 1);
+                        }
+                    }
+                }
                 if let Op::NodeList { limit, offset, .. } | Op::EdgeList { limit, offset, .. } = &op {
                     if *limit == Some(0) || *offset == Some(0) {
                         rep.count("windows_with_zero_agreed", 1);
@@ -3335,7 +3610,7 @@ fn main() {
     };
     let meta = Meta {
         property: "C15",
-        rule: "totality: one evaluation = one input string (<= 4096 bytes: random bytes, printable ASCII, unicode incl. characters whose uppercase has another length, keyword/operator soup, 1-4 token-level mutations of ~870 statements taken from the parser's and the router's own tests, nesting of 19 kinds up to the depth that fits in 4 KiB) pushed through tokenize, parse_expr, parse, parse_all (each twice) and, when execution stays inside the engines, QueryRouter::execute_parsed and ::execute, on a 2 MiB-stack thread of a child process; distinct by hash of the text, non-trivial if it lexes to >= 2 tokens. precedence: one evaluation = one expression tree (all 722 two-operator, 180 unary/binary and 34 295 three-operator trees; random trees of height 2-8 over all 19 binary and 3 unary operators plus IS NULL/IN/BETWEEN/LIKE/calls/CASE/arrays/tuples) whose minimal-parentheses and fully-parenthesised prints both parse back to it through parse_expr and through the statement parser in SELECT-item, WHERE and UPDATE-SET position; distinct by hash of the minimal print, non-trivial with >= 2 operators. equivalence: one evaluation = one completed program of 20-49 generated statements (CREATE/DROP TABLE, CREATE INDEX, SHOW TABLES, INSERT, SELECT with projection/ORDER BY/LIMIT/OFFSET, UPDATE, DELETE, NODE/EDGE CREATE/GET/DELETE/LIST, NEIGHBORS [BY SIMILAR], PATH, FIND NODE/EDGE, EMBED STORE/GET/DELETE, SHOW/COUNT EMBEDDINGS, SIMILAR [CONNECTED TO], ENTITY CREATE/CONNECT; every LIMIT/OFFSET is drawn from {absent, 0, 1-4, 10, larger than any result}) run as text on one router and as direct calls on a twin, compared after every statement and on the final engine states; distinct by hash of the statement texts.",
+        rule: "totality: one evaluation = one input string (<= 4096 bytes: random bytes, printable ASCII, unicode incl. characters whose uppercase has another length, keyword/operator soup, 1-4 token-level mutations of ~870 statements taken from the parser's and the router's own tests, nesting of 19 kinds up to the depth that fits in 4 KiB) pushed through tokenize, parse_expr, parse, parse_all (each twice) and, when execution stays inside the engines, QueryRouter::execute_parsed and ::execute, on a 2 MiB-stack thread of a child process; distinct by hash of the text, non-trivial if it lexes to >= 2 tokens. precedence: one evaluation = one expression tree (all 722 two-operator, 180 unary/binary and 34 295 three-operator trees; random trees of height 2-8 over all 19 binary and 3 unary operators plus IS NULL/IN/BETWEEN/LIKE/calls/CASE/arrays/tuples) whose minimal-parentheses and fully-parenthesised prints both parse back to it through parse_expr and through the statement parser in SELECT-item, WHERE and UPDATE-SET position; distinct by hash of the minimal print, non-trivial with >= 2 operators. equivalence: one evaluation = one completed program of 20-49 generated statements (CREATE/DROP TABLE, CREATE INDEX, SHOW TABLES, INSERT, SELECT with projection/ORDER BY/LIMIT/OFFSET, UPDATE, DELETE, NODE/EDGE CREATE/GET/DELETE/LIST, NEIGHBORS [BY SIMILAR], PATH, FIND NODE/EDGE, EMBED STORE/GET/DELETE/BATCH [INTO collection], SHOW/COUNT EMBEDDINGS, SIMILAR key|vector [COSINE] [INTO collection] [WHERE metadata filter] [CONNECTED TO], ENTITY CREATE/CONNECT; every LIMIT/OFFSET is drawn from {absent, 0, 1-4, 10, larger than any result}) run as text on one router and as direct calls on a twin, compared after every statement and on the final engine states; distinct by hash of the statement texts.",
         assumptions: vec![
             "the documented table is expr.rs:7-18 / the book's Binding Power Table: OR < AND < comparison < | < ^ < & < shifts < + - || < * / % < unary NOT - ~ < postfix, binary operators left-associative; where it is silent (a compound operand of IS NULL / IN / BETWEEN / LIKE, bounds of BETWEEN, LIKE pattern) the printer always writes parentheses".into(),
             "expr.rs answering TooDeep (its documented nesting limit of 64) is an error, not a regrouping; such prints are skipped and counted".into(),
